@@ -87,6 +87,9 @@ def run_case(seed, tier, rec, st):
     rng = random.Random(seed)
     fam = Family("c05", future_annotations=rng.random() < 0.1)
     try:
+        if rng.random() < 0.12:
+            run_discriminated(rng, tier, rec, st, fam)
+            return
         tg = TypeGen(fam, rng, dc_config_fn=lambda r: common.safe_config(r))
         sname = make_schema(fam, tg, rng)
         S = fam.get(sname)
@@ -172,6 +175,136 @@ def run_case(seed, tier, rec, st):
                             "faults": [f[0] for f in faults[1:6]]})
     finally:
         fam.dispose()
+
+
+DISCR_TYPES = {
+    # annotation: (valid wires with values, junk that cannot convert)
+    "int": ([(3, 3), ("17", 17)], ["zz", None, [1]]),
+    "datetime.date": ([("2020-01-02", __import__("datetime").date(2020, 1, 2))], ["nope", 5, None]),
+    "List[int]": ([([1, 2], [1, 2]), ([], [])], [["x"], 5, None]),
+    "uuid.UUID": ([("12345678-1234-5678-1234-567812345678", __import__("uuid").UUID("12345678-1234-5678-1234-567812345678"))], ["nope", 5]),
+    "Optional[int]": ([(None, None), (4, 4)], ["zz", [1]]),
+}
+
+
+def run_discriminated(rng, tier, rec, st, fam):
+    """hierarchy dispatched on a tag field: the failure must still be the documented one and name the culprit of the
+    VARIANT (MissingField / InvalidFieldValue with holder_class == variant), also when the faulty input is the first
+    one ever dispatched through the base or the first one after a new subclass was defined."""
+    from mashumaro.codecs.basic import BasicDecoder
+    from mashumaro import exceptions as mexc
+    mode = rng.choice(["config", "annotated"])
+    lazy = "        lazy_compilation = True\n" if rng.random() < 0.15 else ""
+    cfg = ("    class Config(BaseConfig):\n        discriminator = Discriminator(field='kind', include_subtypes=True)\n" + lazy) if mode == "config" else ""
+    fam.exec_src("@dataclass\nclass R(DataClassDictMixin):\n    base: int\n" + cfg)
+    mod = fam.module
+    classes = {"R": {"parent": None, "tag": None, "fields": [("base", "int", True)]}}
+    counter = [0]
+
+    def define(parent):
+        counter[0] += 1
+        name = f"V{counter[0]}"
+        tag = f"t{counter[0]}"
+        own = []
+        lines = [f"    kind = {tag!r}"]
+        started = False
+        for i in range(rng.randint(1, 3)):
+            ann = rng.choice(list(DISCR_TYPES))
+            req = not started and rng.random() < 0.7
+            fn = f"{name.lower()}_{i}"
+            if req:
+                lines.append(f"    {fn}: {ann} = field(kw_only=True)")
+            else:
+                started = True
+                lines.append(f"    {fn}: {ann} = field(default=None, kw_only=True)" if ann.startswith("Optional") else
+                             f"    {fn}: {ann} = field(default_factory=lambda: _V.get('nodefault'), kw_only=True)")
+            own.append((fn, ann, req))
+        fam.exec_src(f"@dataclass\nclass {name}({parent}):\n" + "\n".join(lines) + "\n")
+        classes[name] = {"parent": parent, "tag": tag, "fields": classes[parent]["fields"] + own}
+        return name
+    for _ in range(rng.randint(2, 3)):
+        define(rng.choice(list(classes)))
+    if mode == "config":
+        decode = lambda d: mod.R.from_dict(d)
+    else:
+        fam.exec_src("DISC = Annotated[R, Discriminator(field='kind', include_subtypes=True)]\n")
+        decode = BasicDecoder(mod.DISC).decode
+    nev = 10 if tier == "quick" else 24
+    first = True
+    fresh_cls = None
+    for ev in range(nev):
+        if ev and rng.random() < 0.15:
+            fresh_cls = define(rng.choice(list(classes)))
+        variants = [c for c in classes if classes[c]["tag"] is not None]
+        target = fresh_cls or rng.choice(variants)
+        V = getattr(mod, target)
+        d = {"kind": classes[target]["tag"]}
+        expv = {}
+        for fn, ann, req in classes[target]["fields"]:
+            wire, val = rng.choice(DISCR_TYPES[ann][0])
+            d[fn] = wire
+            expv[fn] = val
+        fault = rng.choice(["valid", "drop-required", "junk", "no-tag", "unknown-tag", "drop-required", "junk", "two"])
+        exp = None
+        injected = None
+        fnames = [f for f in classes[target]["fields"]]
+        if fault == "no-tag":
+            del d["kind"]
+            exp = ("MissingDiscriminatorError", None)
+        elif fault == "unknown-tag":
+            d["kind"] = rng.choice(["nobody", "", "T1", 5, None])
+            exp = ("SuitableVariantNotFoundError", None)
+        elif fault in ("drop-required", "junk", "two"):
+            hit = {}
+            for _k in range(2 if fault == "two" else 1):
+                fn, ann, req = rng.choice(fnames)
+                how = "drop" if (fault == "drop-required" or (fault == "two" and rng.random() < 0.5)) else "junk"
+                if how == "drop":
+                    if not req:
+                        continue
+                    d.pop(fn, None)
+                    hit[fn] = ("MissingField", None)
+                elif fn not in hit:
+                    jv = rng.choice(DISCR_TYPES[ann][1])
+                    if isinstance(jv, list):
+                        jv = list(jv)
+                    d[fn] = jv
+                    hit[fn] = ("InvalidFieldValue", jv)
+            for fn, ann, req in fnames:       # first faulty field in declaration order
+                if fn in hit:
+                    exp = (hit[fn][0], fn)
+                    injected = hit[fn][1]
+                    break
+        if exp is None:
+            exp = ("ok", None)
+        rec.evaluation()
+        facts = {"scenario": "discriminated", "mode": mode, "fault": fault, "first_dispatch_ever": first,
+                 "first_dispatch_of_new_subclass": fresh_cls is not None}
+        det = lambda **kw: dict({"schema": fam.to_json(), "input": common.short(d, 400), "variant": target, "expected": list(exp)}, **kw)
+        first = False
+        fresh_cls = None
+        try:
+            got = decode(dict(d))
+        except Exception as ex:
+            en = type(ex).__name__
+            ok = en == exp[0]
+            if ok and en in ("MissingField", "InvalidFieldValue"):
+                ok = ex.field_name == exp[1] and ex.holder_class is V and (en == "MissingField" or ex.field_value is injected)
+            if ok and en == "MissingDiscriminatorError":
+                ok = ex.field_name == "kind"
+            if ok:
+                rec.count("agree_discriminated_raise")
+            else:
+                rec.violation(f"discriminated:expected-{exp[0]}:{en}", det(error=f"{en}: {ex}"[:300], observed_field=getattr(ex, "field_name", None),
+                              holder=getattr(getattr(ex, "holder_class", None), "__name__", None)), facts)
+            continue
+        if exp[0] != "ok":
+            rec.violation(f"discriminated:returned-instance-for-invalid-input:{exp[0]}", det(observed=common.short(got, 300)), facts)
+        elif type(got) is not V or any(getattr(got, k) != v or type(getattr(got, k)) is not type(v) for k, v in expv.items()):
+            rec.violation("discriminated:result-differs", det(observed=common.short(got, 300)), facts)
+        else:
+            rec.count("agree_discriminated_ok")
+        rec.nontrivial(("discriminated", mode, fault, target, len(classes)))
 
 
 def sname_shape(fam, sname):
